@@ -7,8 +7,9 @@ import PV.C11.Spec
   unparser → text → `lex` → `parseExpression` → compare → model unparser again.
   Answer: `ok tree=<canonical tree> text=<hex> reparse=<0|1> equal=<0|1> fix=<0|1>` or `parse-error`.
 
-  `paren <parent> <slot> <child>`: parenthesisation decision of the model for one triple (see
-  `PV.C11.Tables`), answered by the harness by rendering one tiny expression.
+  (The harness additionally answers `paren <hex with> <hex without>`, used only by `pre_build` of
+  tools/props/c11.py to extract the real unparser's parenthesisation table into
+  lean/PV/Gen/C11Tables.lean; the model side of that tie is the theorem `PV.C11.gen_parenTable_eq`.)
 -/
 open PV PV.Expr PV.C11
 
